@@ -97,6 +97,8 @@ pub struct Ctx {
     pub exhaustive: BTreeMap<String, u64>,
     pub notes: BTreeMap<String, Json>,
     mark_file: Option<std::fs::File>,
+    focus_violations: usize,
+    other_violations: usize,
     max_violations: usize,
     max_sigs: usize,
 }
@@ -124,6 +126,8 @@ impl Ctx {
             exhaustive: BTreeMap::new(),
             notes: BTreeMap::new(),
             mark_file,
+            focus_violations: 0,
+            other_violations: 0,
             max_violations: 20,
             max_sigs: 150_000,
         }
@@ -138,8 +142,11 @@ impl Ctx {
         index >= self.args.skip_to && index % self.args.nshards == self.args.shard
     }
 
+    /// Early stop: only violations of the property under check count (a
+    /// run asked to decide Cxx must not be cut short by violations that are
+    /// attributed to other properties only).
     pub fn too_many_violations(&self) -> bool {
-        self.violations.len() >= self.max_violations
+        self.focus_violations >= self.max_violations
     }
 
     /// Marks the beginning of a case (used to attribute sanitizer aborts).
@@ -204,8 +211,22 @@ impl Ctx {
     }
 
     pub fn violate(&mut self, props: &[&'static str], sig: &str, what: String, case: Json) {
-        if self.violations.len() >= self.max_violations {
-            return;
+        let is_focus = match self.args.get("prop") {
+            Some(p) => props.contains(&p),
+            None => true,
+        };
+        if is_focus {
+            if self.focus_violations >= self.max_violations {
+                return;
+            }
+            self.focus_violations += 1;
+        } else {
+            // keep (and print) a bounded number of foreign violations, but
+            // never stop the run because of them
+            if self.other_violations >= self.max_violations {
+                return;
+            }
+            self.other_violations += 1;
         }
         let v = Violation {
             props: props.to_vec(),
